@@ -66,6 +66,7 @@ ModelStep(s, e) ==
     [] e.ev \in {"stray", "dup"} -> Stray(s, e.id)
     [] e.ev = "garbage" -> Garbage(s)
     [] e.ev = "badbody" -> BadBody(s, e.id)
+    [] e.ev = "glued" -> Glued(s, e.id)
     [] e.ev = "close" -> Close(s)
     [] e.ev = "mode" -> [s EXCEPT !.sendMode = e.m]
     [] OTHER -> s
@@ -76,7 +77,7 @@ ModelApplicable(s, e) ==
     [] e.ev = "drop" /\ ~Has(e, "skipped") -> e.t \in Id /\ FutLive(s, e.t)
     [] e.ev = "dropc" /\ ~Has(e, "skipped") -> s.cpc # "idle"
     [] e.ev \in {"reply", "stray", "dup"} -> e.id \in 1..(N+1) /\ e.tag = Tag(s)
-    [] e.ev = "badbody" -> e.id \in Id /\ e.tag = Tag(s)
+    [] e.ev \in {"badbody", "glued"} -> e.id \in Id /\ e.tag = Tag(s)
     [] OTHER -> TRUE
 
 NewSent(s0, s1) == SubSeq(s1.sent, Len(s0.sent) + 1, Len(s1.sent))
@@ -119,6 +120,8 @@ MonEvent(m, e) ==
     [] e.ev = "reply" -> [m EXCEPT !.pushedId = Append(@, e.id), !.answered = @ \cup {e.id}]
     [] e.ev \in {"stray", "dup"} -> [m EXCEPT !.pushedId = Append(@, e.id), !.faulty = TRUE]
     [] e.ev = "garbage" -> [m EXCEPT !.pushedId = Append(@, 0), !.faulty = TRUE]
+    [] e.ev = "glued" -> [m EXCEPT !.pushedId = Append(@, e.id), !.answered = @ \cup {e.id}, !.damaged = @ \cup {e.id},
+                                   !.damagedTags = @ \cup {e.tag}, !.faulty = TRUE]
     [] e.ev = "badbody" -> [m EXCEPT !.pushedId = Append(@, e.id), !.answered = @ \cup {e.id}, !.damaged = @ \cup {e.id}, !.damagedTags = @ \cup {e.tag}]
     [] e.ev = "close" -> [m EXCEPT !.faulty = TRUE, !.closed = TRUE]
     [] e.ev = "mode" -> [m EXCEPT !.mode = e.m]
